@@ -135,8 +135,10 @@ def r2(ctx):
 def r3(ctx):
     from . import c13
     ctx.sub(c13.r2)
-    # ... and the statistics phase writes them into its own copy of the state, never into a list shared with another state
-    ctx.sub(c13.r6, only=(r"input-write:cluster_maintenance\.update_all_cluster_statistics",))
+    if mean_source(ctx.ana) == "stored":
+        # ... and the statistics phase writes the means the index reads into its own copy of the state, never into a list shared
+        # with another state (nothing of this enters an index that averages the member rows itself)
+        ctx.sub(c13.r6, only=(r"input-write:cluster_maintenance\.update_all_cluster_statistics",))
 
 
 @rule("C17", "R4", "OWN", "the metric only reads the model it is given", evidence=True)
